@@ -20,6 +20,8 @@ FLAVOURS = {
     'asan': ['-O1', '-g0', '-fsanitize=address,undefined', '-fno-sanitize-recover=undefined', '-fno-sanitize=nonnull-attribute', '-fno-omit-frame-pointer',
              '-DVF_SAN=1'],
     'tsan': ['-O1', '-g0', '-fsanitize=thread', '-DVF_SAN=1', '-DVF_TSAN=1'],
+    # line coverage of /repo/include under the stimuli of the checks (bin/coverage; never used for evidence)
+    'cov': ['-O0', '-g0', '--coverage', '-fno-inline', '-fno-elide-constructors'],
 }
 NSHARDS = 24
 
@@ -126,8 +128,9 @@ def build(flavour='plain', extra_defs=(), verbose=False, include_dir=None):
         r = subprocess.run([cxx] + flags + objs + ['-o', exe], capture_output=True, text=True)
         if r.returncode != 0:
             raise BuildError(r.stderr[:6000])
-        for o in objs:
-            os.unlink(o)
+        if flavour != 'cov':
+            for o in objs:
+                os.unlink(o)
         open(os.path.join(bdir, 'OK'), 'w').close()
         _prune(bdir)
     return exe, bdir, time.time() - t0, False
